@@ -27,6 +27,21 @@ CHECKS = {
         'own YaqlEngine over the read-only tables of a pristine template '
         '(validated per run against factory-fresh engines on the text pool); '
         'scheduling points are token fetches', 'DESIGN.md section 2, C01'),
+    'C15': (
+        'exhaustive all-pairs enumeration of a boundary corpus under every '
+        'scalar operator against a reference model, law checks through yaql, '
+        'Hypothesis random scalars',
+        'The finite space corpus x corpus x operator (38 values, 14 binary + 3 '
+        'unary operators, variable and literal spellings) is enumerated '
+        'completely in the quick tier and compared by value, type and repr '
+        'with models/scalarmodel.py (written from the property statement and '
+        'the operator docstrings); ordering/division laws are evaluated '
+        'through yaql on all same-kind pairs (thorough: all triples); '
+        'Hypothesis adds arbitrary ints, floats and strings. Exhaustive on '
+        'the corpus, sampled beyond it.',
+        'CPython int/float/str semantics are the ground truth for '
+        'number x number and string x string results; NaN/inf excluded',
+        'DESIGN.md section 2, C15'),
     'C03': (
         'exhaustive short token sequences + Hypothesis token soups / '
         'mutations / unicode text against a validity predicate',
